@@ -27,8 +27,8 @@ PROPS = ['C%02d' % i for i in range(1, 21)]
 
 # scenario plan: property -> tier -> [(family, count or None)]
 PLAN = {
-    'C01': {'quick': [('nest', 500), ('redispatch', None), ('await_pos', 192), ('errors', 120), ('recursion', None), ('fwd3', 150), ('hist_rand', 120), ('timeout', None), ('late_on', None)],
-            'thorough': [('nest', 12000), ('late_on', None), ('redispatch', None), ('await_pos', None), ('errors', None), ('recursion', None), ('fwd3', None), ('fwd', 2000), ('hist_rand', 3000), ('timeout', None), ('timeout_rand', 2000)]},
+    'C01': {'quick': [('nest', 500), ('redispatch', None), ('await_pos', 192), ('errors', 120), ('recursion', None), ('fwd3', 150), ('hist_rand', 120), ('timeout', None), ('late_on', None), ('timeout_stray', None)],
+            'thorough': [('nest', 12000), ('late_on', None), ('timeout_stray', None), ('redispatch', None), ('await_pos', None), ('errors', None), ('recursion', None), ('fwd3', None), ('fwd', 2000), ('hist_rand', 3000), ('timeout', None), ('timeout_rand', 2000)]},
     'C02': {'quick': [('nest', 500), ('await_pos', None), ('fwd3', 200), ('firstuse', None), ('life', 150)],
             'thorough': [('nest', 12000), ('await_pos', None), ('fwd3', None), ('fwd', 3000), ('firstuse', None), ('life', None), ('hist_rand', 2000)]},
     'C03': {'quick': [('nest', 500), ('await_pos', 192), ('recursion', None), ('errors', 120), ('fwd3', 150), ('hist', 150), ('par_timeout', 72), ('timeout_stray', None), ('timeout_rand', 100)],
@@ -100,6 +100,9 @@ SIM = {'C01': ('MC_core.tla', 'SIM_core.cfg'), 'C02': ('MC_core.tla', 'SIM_g1.cf
        'C05': ('MC_core.tla', 'SIM_core.cfg'), 'C06': ('MC_core.tla', 'SIM_core.cfg'), 'C09': ('MC_core.tla', 'SIM_core.cfg'),
        'C07': ('MC_fwd.tla', 'SIM_fwd.cfg'), 'C08': ('MC_fwd.tla', 'SIM_fwd.cfg'), 'C11': ('MC_core.tla', 'SIM_err.cfg'),
        'C13': ('MC_hist.tla', 'SIM_hist.cfg'), 'C14': ('MC_hist.tla', 'SIM_hist.cfg'), 'C15': ('MC_core.tla', 'SIM_idle.cfg')}
+# further simulation configs whose behaviours are replayed on the code for a property (run-time registration, stop from drivers and handlers)
+SIM['C16'] = ('MC_core.tla', 'SIM_stop.cfg')
+SIM_EXTRA = {'C01': [('MC_late.tla', 'SIM_late.cfg')]}
 _REPLAY = {}
 
 
@@ -107,10 +110,14 @@ def build_scenarios(prop, tier, seed):
     out = []
     if prop in SIM:
         from harness import replay
-        behs = replay.simulate(SIM[prop][0], SIM[prop][1], num=25 if tier == 'quick' else 400, seed=seed + 1)
-        for i, b in enumerate(behs):
-            out.append(('replay/%d' % i, replay.to_scenario(b)))
-            _REPLAY['replay/%d' % i] = b
+        sims = [SIM[prop]] + SIM_EXTRA.get(prop, [])
+        k = 0
+        for module, cfg in sims:
+            behs = replay.simulate(module, cfg, num=(25 if tier == 'quick' else 400) // (1 if len(sims) == 1 else 2) + 1, seed=seed + 1)
+            for b in behs:
+                out.append(('replay/%d' % k, replay.to_scenario(b)))
+                _REPLAY['replay/%d' % k] = b
+                k += 1
     for fam, count in PLAN[prop][tier]:
         kind = families.FAMILIES[fam][0]
         ss = families.generate(fam, seed, count) if kind == 'rand' else families.generate(fam, seed, count)
